@@ -376,7 +376,8 @@ package operator
 //@   loop 2 invariant b.allowDemote ==> jointDiff(b)
 //@   loop 3 invariant b.allowDemote ==> jointDiff(b)
 //@   loop 3 invariant [covered-so-far] forall s uint64 :: {visited(b.targetPeers, s)} visited(b.targetPeers, s) && in(b.targetPeers, s) ==> in(b.originPeers, s) || in(b.toAdd, s)
-//@   requires b != nil && b.cluster != nil && wfPM(b.originPeers) && wfPM(b.targetPeers) && allocated(b.originPeers) && allocated(b.targetPeers) && plainRolesU(b.originPeers)
+//@   requires b != nil && b.cluster != nil && wfPM(b.originPeers) && wfPM(b.targetPeers) && allocated(b.originPeers) && allocated(b.targetPeers) && plainRolesU(b.originPeers) && b.originPeers != b.targetPeers
+//@   ensures [origin-untouched] r1 == nil ==> wfPM(b.originPeers) && plainRolesU(b.originPeers) && mapsApart(b)
 //@   ensures [work-maps-well-formed-and-distinct] r1 == nil ==> bInv(b) && wfPM(b.targetPeers) && b.targetPeers != b.currentPeers && b.targetPeers != b.toAdd && b.targetPeers != b.toRemove && b.targetPeers != b.toPromote && b.targetPeers != b.toDemote
 //@   ensures [pending-changes-carry-the-requested-role] r1 == nil ==> pendingRole(b.toAdd, b.targetPeers) && pendingRole(b.toPromote, b.targetPeers) && pendingRole(b.toDemote, b.targetPeers)
 //@   ensures [same-cluster-view] b.cluster == old(b.cluster)
@@ -435,7 +436,7 @@ package operator
 // The builder's public API keeps the data invariant that Build needs: as long as no error has been recorded, origin and
 // requested placement are well-formed store-indexed maps, and (unless the caller opted out) no origin peer is in a
 // joint state.  NewBuilder establishes it from any region; every setter preserves it; Build consumes it.
-//@ pure builderOK(b *Builder) = b.err == nil ==> wfPM(b.originPeers) && wfPM(b.targetPeers) && allocated(b.originPeers) && allocated(b.targetPeers) && (b.skipOriginJointStateCheck || plainRolesU(b.originPeers))
+//@ pure builderOK(b *Builder) = b.err == nil ==> wfPM(b.originPeers) && wfPM(b.targetPeers) && allocated(b.originPeers) && allocated(b.targetPeers) && b.originPeers != b.targetPeers && (b.useJointConsensus ==> b.allowDemote) && (b.skipOriginJointStateCheck || plainRolesU(b.originPeers))
 //@ func NewBuilder
 //@   props C08
 //@   requires region != nil && region.meta != nil && (forall i :: {region.meta.Peers[i]} 0 <= i && i < len(region.meta.Peers) ==> allocated(region.meta.Peers[i]))
